@@ -441,7 +441,7 @@ def _install_common_hooks(model, it, facts, log):
     for f in list(model.functions.values()):
         if f.name == 'check_interrupts_paragraph' and f.cls is not None:
             it.func_hooks[f.qualname] = lambda interp, fi, args, kwargs: Cond(
-                ('interrupts', _cursor_of(args), sum(1 for fr in interp.call_stack if fr.func is not None and fr.func.name == 'read')))
+                ('interrupts', _cursor_of(args, interp), sum(1 for fr in interp.call_stack if fr.func is not None and fr.func.name == 'read')))
     if model.has_func('block_token.Footnote.match_reference'):
         mr = model.func('block_token.Footnote.match_reference')
         shapes = summarize_tuple_returns(mr)
@@ -551,9 +551,36 @@ def _install_summaries(model, it):
                                       Choice.pick(interp, ('summary', short, tuple(_freeze(a) for a in args[1:])), alts))
 
 
-def _cursor_of(args):
+def cursor_by_peek(interp, w):
+    """Position of a line wrapper as its own peek() shows it: index of the line it would hand out next, minus one
+    (-1 before the first line, k after line k) - whatever its fields are called and whichever of the two they count.
+    None when that cannot be told (no list of lines, an abstract cursor)."""
+    lines = None
+    for v in w.attrs.values():
+        if isinstance(v, list) and v and lines is None:
+            lines = v
+    if lines is None or interp is None:
+        return None
+    try:
+        nxt = interp.call(interp.getattr(w, 'peek'), [], {})
+    except Exception:
+        return None
+    if nxt is None:
+        return len(lines) - 1
+    for i, l in enumerate(lines):
+        if l is nxt:
+            return i - 1
+    return None
+
+
+def _cursor_of(args, interp=None):
     """Cursor position of the FileWrapper among the arguments: -1 before the first line, k after reading
     line k (whatever the field is called: the lines list and the integer fields identify a wrapper)."""
+    for a in args:
+        if isinstance(a, Obj) and isinstance(a.attrs.get('lines'), list) and interp is not None:
+            c = cursor_by_peek(interp, a)
+            if c is not None:
+                return c
     for a in args:
         if isinstance(a, Obj) and isinstance(a.attrs.get('lines'), list):
             if '_index' in a.attrs:
